@@ -66,6 +66,9 @@ theorem c14_ties_intact :
     AVRO_DATA_COPY_lost = false ∧
     AVRO_SYNC_COPY_lost = false ∧
     VLQ_ZIGZAG_SHIFT_lost = false ∧
+    AVROD_PREFIX_ARM_lost = false ∧
+    AVROD_LOOP_HEAD_lost = false ∧
+    AVROD_SWITCH_FORCES_FLUSH_lost = false ∧
     AVRO_SYNC_LEN_lost = false ∧
     AVRO_SYNC_REMAINING_lost = false ∧
     AVRO_SYNC_OFFSET_BASE_lost = false ∧
@@ -80,7 +83,8 @@ theorem c14_shape_values :
     JSON_NUMBER_CLOSE = 1 ∧ JSON_BATCH_STOP = 1 ∧ JSON_STRING_SCAN = 1 ∧ JSON_UNICODE_HIGH_LAST = 3 ∧
     JSON_UNICODE_LOW_LAST = 9 ∧ JSON_LITERAL_RESUME = 1 ∧ CSV_RECORD_DONE = 1 ∧ CSV_FLUSH_PARTIAL_GUARD = 0 ∧
     CSV_TO_READ = 0 ∧ CSV_BUFREADER_STOP = 0 ∧ AVRO_DATA_COPY = 0 ∧ AVRO_SYNC_COPY = 0 ∧ VLQ_ZIGZAG_SHIFT = 1 ∧
-    IPC_FINISH_OK_READ = 0 ∧ IPC_EOS_SIZE = 0 := by decide
+    IPC_FINISH_OK_READ = 0 ∧ IPC_EOS_SIZE = 0 ∧ AVROD_PREFIX_ARM = 0 ∧ AVROD_LOOP_HEAD = 0 ∧
+    AVROD_SWITCH_FORCES_FLUSH = 0 := by decide
 
 theorem ipc_header_consts : IPC_HEADER_LEN = IPC_HEADER_FULL := by decide
 
